@@ -15,6 +15,11 @@ R40b the tick body between reading the hardware and writing it runs under the lo
      tick, command manager tick, tag notification).
 R40c the lock is a non-reentrant threading.Lock: no function reachable from inside a locked region
      acquires it again (checked for the entry points and the functions Engine.tick calls on self).
+R40d an acknowledged request survives the next request: a set_method that merges (a live edit) replaces the interpreter, and
+     Engine.on_interpreter_reset then builds a new CommandManager. What the old one had accepted - requests still queued (acknowledged
+     to the aggregator, not yet executed) and requests executing over several ticks - must reach the new manager or be settled
+     there (same construct as C14 R14f). Otherwise "applied completely before the next tick" fails for the request before the edit:
+     a Stop accepted in one tick gap and an edit in the same gap - the Stop never executes.
 Decides the lock structure; it does not model the GIL or asyncio scheduling.
 """
 from __future__ import annotations
@@ -43,7 +48,7 @@ def _inside(pm, node, containers):
     return False
 
 
-def run(ctx) -> None:
+def _run_main(ctx) -> None:
     prog, res = ctx.prog, ctx.res
     for r, d in [("R40a", "entry points touch shared state only under Engine._lock"), ("R40b", "tick body runs under the lock"),
                  ("R40c", "the lock is never re-acquired from inside a locked region")]:
@@ -179,3 +184,11 @@ def run(ctx) -> None:
                                 ctx.fail("R40c", m, c, f"Engine.{m.name}: locked region reaches {' > '.join(r_)}",
                                          "a function called while holding the non-reentrant lock acquires it again: deadlock")
             ctx.ok("R40c", f"Engine.{m.name}: locked region does not re-acquire the lock")
+
+
+def run(ctx) -> None:
+    _run_main(ctx)
+    from .C14 import _r14f
+    _r14f(ctx, "R40d", " | for C40: a Stop, Pause, Hold, Restart or uod command that arrives during a tick is acknowledged and queued; a "
+          "set_method (edit) applied before the next tick drops it - the command never executes, silently; an edit one tick after Stop "
+          "leaves System State Running with _runstate_stopping True for ever")
